@@ -55,7 +55,21 @@ SPECS = [
     {"sel": _c("fb", [], [_c("fa", [_cap("u", "g0", 1)])]), "mode": "imm"},
     {"sel": _c("fa", [_cap("u", "h0", 1)]), "mode": "imm", "overridable": True},
 ]
-CRITICAL = {"push", "pop", "get", "_apply", "_tooler", "_untooler", "transform_for", "_register"}
+_CRITICAL = {"push", "pop", "get", "_apply", "_tooler", "_untooler", "transform_for", "_register"}
+_NONCRIT = {"__enter__", "__exit__", "_enter", "_exit", "_gensym"}
+
+
+class _Crit:
+    """The critical functions: the fixed core plus every helper they call by name (discovered
+    by vlib.sched.setup on the tree under test)."""
+
+    def __contains__(self, name):
+        from vlib import sched as SC
+
+        return name in _CRITICAL or (name in SC.EXTRA_CRITICAL and name not in _NONCRIT)
+
+
+CRITICAL = _Crit()
 
 
 def expected_events(spec, roots):
